@@ -70,6 +70,10 @@ Inductive stepT :=
 | Play (s k : N)              (* k worker goroutines are started *)
 | Pause (s : N)
 | Packet (s : N)
+| PacketBegin (c : N)         (* the reader of connection c hands an interleaved frame to its session *)
+| PacketEnd (c : N)
+| SBegin (s : N)              (* a UDP listener (or the stream writer) enters a callback of session s *)
+| SEnd (s : N)
 | Teardown (c s : N)
 | ConnFail (c : N)
 | ReaderExit (c : N)
@@ -88,7 +92,7 @@ Fixpoint nupd {A} (i : N) (f : A -> A) (l : list A) : list A :=
   | x :: t => if i =? 0 then f x :: t else x :: nupd (N.pred i) f t
   end.
 
-Definition set_cst (st : ost) (c : conn) : conn := mkConn st (c_reader c) (c_sess c).
+Definition set_cst (st : ost) (c : conn) : conn := mkConn st (c_reader c) (c_sess c) (c_busy c).
 (* ctx cancellation reaches a connection: it leaves its loop if it is still in it *)
 Definition cancel_conn (c : conn) : conn :=
   match c_st c with Open => set_cst Closing c | _ => c end.
@@ -98,7 +102,7 @@ Fixpoint cancel_conns (ids : list N) (cs : list conn) : list conn :=
   | i :: t => cancel_conns t (nupd i cancel_conn cs)
   end.
 Definition cancel_sess (s : sess) : sess :=
-  match s_st s with Open => mkSess Closing (s_conns s) (s_workers s) (s_media s) | _ => s end.
+  match s_st s with Open => mkSess Closing (s_conns s) (s_workers s) (s_media s) (s_srun s) | _ => s end.
 
 Fixpoint memb (x : N) (l : list N) : bool :=
   match l with [] => false | y :: t => (x =? y) || memb x t end.
@@ -108,119 +112,158 @@ Fixpoint remv (x : N) (l : list N) : list N :=
 Definition conn_closed (cs : list conn) (i : N) : bool :=
   match nnth i cs with Some c => ost_eqb (c_st c) Closed | None => true end.
 
-Definition emit (st : state) (x : cb) : list cb := trace st ++ [x].
+Definition emit (st : state) (x : list cb) : list cb := trace st ++ x.
 
 (* None = the step is not enabled *)
 Definition step (st : state) (s : stepT) : option state :=
   match s with
   | Accept =>
       match sv st with
-      | Open => Some (mkSt Open (listeners st) (conns st ++ [mkConn Open true None]) (sesss st)
-                          (emit st (CbConnOpen (nlen (conns st)))))
+      | Open => Some (mkSt Open (listeners st) (conns st ++ [mkConn Open true None None]) (sesss st)
+                          (emit st [CbConnOpen (nlen (conns st))]))
       | _ => None
       end
   | NewSession c =>
       match sv st, nnth c (conns st) with
-      | Open, Some (mkConn Open r None) =>
+      | Open, Some (mkConn Open r None None) =>
           let s := nlen (sesss st) in
-          Some (mkSt Open (listeners st) (nupd c (fun x => mkConn Open r (Some s)) (conns st))
-                     (sesss st ++ [mkSess Open [c] 0 false]) (emit st (CbSessOpen s c)))
+          Some (mkSt Open (listeners st) (nupd c (fun x => mkConn Open r (Some s) None) (conns st))
+                     (sesss st ++ [mkSess Open [c] 0 false 0]) (emit st [CbSessOpen s c]))
       | _, _ => None
       end
   | Attach c s =>
       match nnth c (conns st), nnth s (sesss st) with
-      | Some (mkConn Open r None), Some (mkSess Open cs w m) =>
-          Some (mkSt (sv st) (listeners st) (nupd c (fun x => mkConn Open r (Some s)) (conns st))
-                     (nupd s (fun x => mkSess Open (c :: cs) w m) (sesss st)) (trace st))
+      | Some (mkConn Open r None None), Some (mkSess Open cs w m n) =>
+          Some (mkSt (sv st) (listeners st) (nupd c (fun x => mkConn Open r (Some s) None) (conns st))
+                     (nupd s (fun x => mkSess Open (c :: cs) w m n) (sesss st)) (trace st))
       | _, _ => None
       end
+  (* requests are read by the same reader goroutine that delivers frames: none while it is in a callback *)
   | Request c =>
       match nnth c (conns st) with
-      | Some (mkConn Open _ _) => Some (mkSt (sv st) (listeners st) (conns st) (sesss st) (emit st (CbReq c)))
+      | Some (mkConn Open _ _ None) => Some (mkSt (sv st) (listeners st) (conns st) (sesss st) (emit st [CbReq c]))
       | _ => None
       end
+  (* a request inside a session: its callback runs on the session's goroutine, begins and returns there *)
   | RequestS c s =>
       match nnth c (conns st), nnth s (sesss st) with
-      | Some (mkConn Open _ (Some s')), Some (mkSess Open _ _ _) =>
-          if s' =? s then Some (mkSt (sv st) (listeners st) (conns st) (sesss st) (emit st (CbReqS c s))) else None
+      | Some (mkConn Open _ (Some s') None), Some (mkSess Open _ _ _ _) =>
+          if s' =? s then Some (mkSt (sv st) (listeners st) (conns st) (sesss st) (emit st [CbReqS c s; CbSB s; CbSE s])) else None
       | _, _ => None
       end
   | Play s k =>
       match nnth s (sesss st) with
-      | Some (mkSess Open cs w m) =>
-          Some (mkSt (sv st) (listeners st) (conns st) (nupd s (fun x => mkSess Open cs (w + k) true) (sesss st)) (trace st))
+      | Some (mkSess Open cs w m n) =>
+          Some (mkSt (sv st) (listeners st) (conns st) (nupd s (fun x => mkSess Open cs (w + k) true n) (sesss st)) (trace st))
       | _ => None
       end
+  (* PAUSE stops the medias: removeClient takes the listener's lock, i.e. waits for a callback in progress *)
   | Pause s =>
       match nnth s (sesss st) with
-      | Some (mkSess Open cs w m) =>
-          Some (mkSt (sv st) (listeners st) (conns st) (nupd s (fun x => mkSess Open cs 0 false) (sesss st)) (trace st))
+      | Some (mkSess Open cs w m 0) =>
+          Some (mkSt (sv st) (listeners st) (conns st) (nupd s (fun x => mkSess Open cs 0 false 0) (sesss st)) (trace st))
       | _ => None
       end
   | Packet s =>
       match nnth s (sesss st) with
-      | Some (mkSess Open _ _ true) | Some (mkSess Closing _ _ true) =>
-          Some (mkSt (sv st) (listeners st) (conns st) (sesss st) (emit st (CbPkt s)))
+      | Some (mkSess Open _ _ true _) | Some (mkSess Closing _ _ true _) =>
+          Some (mkSt (sv st) (listeners st) (conns st) (sesss st) (emit st [CbPkt s]))
+      | _ => None
+      end
+  (* the reader goroutine runs as long as the socket is open - also while its connection is already
+     shutting down - and hands every frame it has buffered to the session the connection is attached to *)
+  | PacketBegin c =>
+      match nnth c (conns st) with
+      | Some (mkConn o true (Some s) None) =>
+          Some (mkSt (sv st) (listeners st) (nupd c (fun x => mkConn o true (Some s) (Some s)) (conns st)) (sesss st)
+                     (emit st [CbPktB c s]))
+      | _ => None
+      end
+  | PacketEnd c =>
+      match nnth c (conns st) with
+      | Some (mkConn o r ss (Some s)) =>
+          Some (mkSt (sv st) (listeners st) (nupd c (fun x => mkConn o r ss None) (conns st)) (sesss st)
+                     (emit st [CbPktE c]))
+      | _ => None
+      end
+  | SBegin s =>
+      match nnth s (sesss st) with
+      | Some (mkSess Open cs w true n) =>
+          Some (mkSt (sv st) (listeners st) (conns st) (nupd s (fun x => mkSess Open cs w true (n + 1)) (sesss st)) (emit st [CbSB s]))
+      | Some (mkSess Closing cs w true n) =>
+          Some (mkSt (sv st) (listeners st) (conns st) (nupd s (fun x => mkSess Closing cs w true (n + 1)) (sesss st)) (emit st [CbSB s]))
+      | _ => None
+      end
+  | SEnd s =>
+      match nnth s (sesss st) with
+      | Some (mkSess o cs w m n) =>
+          if 0 <? n
+          then Some (mkSt (sv st) (listeners st) (conns st) (nupd s (fun x => mkSess o cs w m (N.pred n)) (sesss st)) (emit st [CbSE s]))
+          else None
       | _ => None
       end
   | Teardown c s =>
       match nnth c (conns st), nnth s (sesss st) with
-      | Some (mkConn Open r (Some s')), Some (mkSess Open cs w m) =>
+      | Some (mkConn Open r (Some s') None), Some (mkSess Open cs w m n) =>
           if s' =? s then
             Some (mkSt (sv st) (listeners st)
-                       (cancel_conns (remv c cs) (nupd c (fun x => mkConn Open r None) (conns st)))
-                       (nupd s (fun x => mkSess Closing (remv c cs) w m) (sesss st))
-                       (emit st (CbReqS c s)))
+                       (cancel_conns (remv c cs) (nupd c (fun x => mkConn Open r None None) (conns st)))
+                       (nupd s (fun x => mkSess Closing (remv c cs) w m n) (sesss st))
+                       (emit st [CbReqS c s; CbSB s; CbSE s]))
           else None
       | _, _ => None
       end
   | ConnFail c =>
       match nnth c (conns st) with
-      | Some (mkConn Open r ss) => Some (mkSt (sv st) (listeners st) (nupd c (set_cst Closing) (conns st)) (sesss st) (trace st))
+      | Some (mkConn Open r ss b) => Some (mkSt (sv st) (listeners st) (nupd c (set_cst Closing) (conns st)) (sesss st) (trace st))
       | _ => None
       end
+  (* the socket is closed; the reader returns from its read - not from a callback it is in *)
   | ReaderExit c =>
       match nnth c (conns st) with
-      | Some (mkConn Closing true ss) =>
-          Some (mkSt (sv st) (listeners st) (nupd c (fun x => mkConn Closing false ss) (conns st)) (sesss st) (trace st))
+      | Some (mkConn Closing true ss None) =>
+          Some (mkSt (sv st) (listeners st) (nupd c (fun x => mkConn Closing false ss None) (conns st)) (sesss st) (trace st))
       | _ => None
       end
+  (* reader.wait() has returned: only now the session is told (removeConn), then OnConnClose *)
   | ConnFinish c =>
       match nnth c (conns st) with
-      | Some (mkConn Closing false ss) =>
-          Some (mkSt (sv st) (listeners st) (nupd c (fun x => mkConn Closed false ss) (conns st)) (sesss st)
-                     (emit st (CbConnClose c)))
+      | Some (mkConn Closing false ss b) =>
+          Some (mkSt (sv st) (listeners st) (nupd c (fun x => mkConn Closed false ss b) (conns st)) (sesss st)
+                     (emit st [CbConnClose c]))
       | _ => None
       end
   | SessFail s =>
       match nnth s (sesss st) with
-      | Some (mkSess Open cs w m) =>
+      | Some (mkSess Open cs w m n) =>
           Some (mkSt (sv st) (listeners st) (cancel_conns cs (conns st))
-                     (nupd s (fun x => mkSess Closing cs w m) (sesss st)) (trace st))
+                     (nupd s (fun x => mkSess Closing cs w m n) (sesss st)) (trace st))
       | _ => None
       end
+  (* the session waits for the done channel of each attached connection, then stops its medias
+     (removeClient waits for a UDP callback in progress) *)
   | MediaStop s =>
       match nnth s (sesss st) with
-      | Some (mkSess Closing cs w true) =>
+      | Some (mkSess Closing cs w true 0) =>
           if forallb (conn_closed (conns st)) cs
-          then Some (mkSt (sv st) (listeners st) (conns st) (nupd s (fun x => mkSess Closing cs w false) (sesss st)) (trace st))
+          then Some (mkSt (sv st) (listeners st) (conns st) (nupd s (fun x => mkSess Closing cs w false 0) (sesss st)) (trace st))
           else None
       | _ => None
       end
   | WorkerExit s =>
       match nnth s (sesss st) with
-      | Some (mkSess Closing cs w false) =>
+      | Some (mkSess Closing cs w false n) =>
           if (0 <? w) && forallb (conn_closed (conns st)) cs
-          then Some (mkSt (sv st) (listeners st) (conns st) (nupd s (fun x => mkSess Closing cs (N.pred w) false) (sesss st)) (trace st))
+          then Some (mkSt (sv st) (listeners st) (conns st) (nupd s (fun x => mkSess Closing cs (N.pred w) false n) (sesss st)) (trace st))
           else None
       | _ => None
       end
   | SessFinish s =>
       match nnth s (sesss st) with
-      | Some (mkSess Closing cs 0 false) =>
+      | Some (mkSess Closing cs 0 false 0) =>
           if forallb (conn_closed (conns st)) cs
-          then Some (mkSt (sv st) (listeners st) (conns st) (nupd s (fun x => mkSess Closed cs 0 false) (sesss st))
-                          (emit st (CbSessClose s)))
+          then Some (mkSt (sv st) (listeners st) (conns st) (nupd s (fun x => mkSess Closed cs 0 false 0) (sesss st))
+                          (emit st [CbSessClose s]))
           else None
       | _ => None
       end
@@ -255,34 +298,42 @@ Definition all_closed (st : state) : bool :=
 
 (* remaining work of the shutdown *)
 Definition ost_w (o : ost) : N := match o with Open => 2 | Closing => 1 | Closed => 0 end.
-Definition conn_w (c : conn) : N := ost_w (c_st c) + (if c_reader c then 1 else 0).
-Definition sess_w (s : sess) : N := ost_w (s_st s) + s_workers s + (if s_media s then 1 else 0).
+Definition conn_w (c : conn) : N :=
+  ost_w (c_st c) + (if c_reader c then 1 else 0) + (match c_busy c with Some _ => 1 | None => 0 end).
+Definition sess_w (s : sess) : N := ost_w (s_st s) + s_workers s + (if s_media s then 1 else 0) + s_srun s.
 Fixpoint sumN {A} (f : A -> N) (l : list A) : N :=
   match l with [] => 0 | x :: t => f x + sumN f t end.
 Definition measure (st : state) : N :=
   ost_w (sv st) + listeners st + sumN conn_w (conns st) + sumN sess_w (sesss st).
 
 (* ---------- the callback automaton: exactly the legal callback words ---------- *)
-(* per connection / session: 0 = not yet opened, 1 = open, 2 = closed; ids are allotted in order of opening *)
-Record astate := mkA { a_conns : list N; a_sesss : list N }.
+(* per connection / session: 0 = not yet opened, 1 = open, 2 = closed; ids are allotted in order of opening.
+   a_cbusy: per connection, 0 = its reader is not in a packet callback, s + 1 = it is in one of session s.
+   a_srun: per session, the number of its other callbacks in progress. *)
+Record astate := mkA { a_conns : list N; a_sesss : list N; a_cbusy : list N; a_srun : list N }.
 
 Definition astep (a : astate) (x : cb) : option astate :=
   match x with
-  | CbConnOpen c => if c =? nlen (a_conns a) then Some (mkA (a_conns a ++ [1]) (a_sesss a)) else None
+  | CbConnOpen c =>
+      if c =? nlen (a_conns a) then Some (mkA (a_conns a ++ [1]) (a_sesss a) (a_cbusy a ++ [0]) (a_srun a)) else None
   | CbConnClose c =>
       match nnth c (a_conns a) with
-      | Some 1 => Some (mkA (nupd c (fun _ => 2) (a_conns a)) (a_sesss a))
+      | Some 1 => Some (mkA (nupd c (fun _ => 2) (a_conns a)) (a_sesss a) (a_cbusy a) (a_srun a))
       | _ => None
       end
   | CbSessOpen s c =>
       match nnth c (a_conns a) with
-      | Some 1 => if s =? nlen (a_sesss a) then Some (mkA (a_conns a) (a_sesss a ++ [1])) else None
+      | Some 1 => if s =? nlen (a_sesss a) then Some (mkA (a_conns a) (a_sesss a ++ [1]) (a_cbusy a) (a_srun a ++ [0])) else None
       | _ => None
       end
+  (* the close notification of a session: it is open and none of its callbacks is in progress *)
   | CbSessClose s =>
-      match nnth s (a_sesss a) with
-      | Some 1 => Some (mkA (a_conns a) (nupd s (fun _ => 2) (a_sesss a)))
-      | _ => None
+      match nnth s (a_sesss a), nnth s (a_srun a) with
+      | Some 1, Some 0 =>
+          if forallb (fun b => negb (b =? s + 1)) (a_cbusy a)
+          then Some (mkA (a_conns a) (nupd s (fun _ => 2) (a_sesss a)) (a_cbusy a) (a_srun a))
+          else None
+      | _, _ => None
       end
   | CbReq c => match nnth c (a_conns a) with Some 1 => Some a | _ => None end
   | CbReqS c s =>
@@ -291,6 +342,26 @@ Definition astep (a : astate) (x : cb) : option astate :=
       | _, _ => None
       end
   | CbPkt s => match nnth s (a_sesss a) with Some 1 => Some a | _ => None end
+  | CbPktB c s =>
+      match nnth c (a_conns a), nnth s (a_sesss a), nnth c (a_cbusy a) with
+      | Some 1, Some 1, Some 0 => Some (mkA (a_conns a) (a_sesss a) (nupd c (fun _ => s + 1) (a_cbusy a)) (a_srun a))
+      | _, _, _ => None
+      end
+  | CbPktE c =>
+      match nnth c (a_cbusy a) with
+      | Some 0 | None => None
+      | Some _ => Some (mkA (a_conns a) (a_sesss a) (nupd c (fun _ => 0) (a_cbusy a)) (a_srun a))
+      end
+  | CbSB s =>
+      match nnth s (a_sesss a) with
+      | Some 1 => Some (mkA (a_conns a) (a_sesss a) (a_cbusy a) (nupd s N.succ (a_srun a)))
+      | _ => None
+      end
+  | CbSE s =>
+      match nnth s (a_srun a) with
+      | Some 0 | None => None
+      | Some _ => Some (mkA (a_conns a) (a_sesss a) (a_cbusy a) (nupd s N.pred (a_srun a)))
+      end
   end.
 
 Fixpoint arun (a : astate) (w : list cb) : option astate :=
@@ -305,8 +376,10 @@ Fixpoint afirst_bad (a : astate) (w : list cb) (i : N) : option N :=
   | x :: t => match astep a x with Some a' => afirst_bad a' t (i + 1) | None => Some i end
   end.
 
+Definition a0 : astate := mkA [] [] [] [].
+
 Definition accept (w : list cb) : bool :=
-  match arun (mkA [] []) w with Some _ => true | None => false end.
+  match arun a0 w with Some _ => true | None => false end.
 
 (* every opened connection and session has been closed *)
 Definition abalanced (a : astate) : bool :=
@@ -333,7 +406,7 @@ Definition cl_measure (c : client) : N :=
   ost_w (cl_st c) + (if cl_reader c then 1 else 0) + cl_workers c + cl_listeners c.
 
 (* ================= wire protocol =================
-   case 1: final w...      a callback word, w = 1 c | 2 c | 3 s c | 4 s | 5 c | 6 c s | 7 s
+   case 1: final w...      a callback word, w = 1 c | 2 c | 3 s c | 4 s | 5 c | 6 c s | 7 s | 8 c s | 9 c | 10 s | 11 s
                            final = 1: the run ended with Server.Close returned: everything opened must be closed
      answer: 1             legal (and balanced if final)
              0 i           callback i is the first illegal one
@@ -355,6 +428,10 @@ Fixpoint get_word (fuel : list N) (l : list N) : option (list cb) :=
       | 5 :: c :: t => option_map (cons (CbReq c)) (get_word fuel' t)
       | 6 :: c :: s :: t => option_map (cons (CbReqS c s)) (get_word fuel' t)
       | 7 :: s :: t => option_map (cons (CbPkt s)) (get_word fuel' t)
+      | 8 :: c :: s :: t => option_map (cons (CbPktB c s)) (get_word fuel' t)
+      | 9 :: c :: t => option_map (cons (CbPktE c)) (get_word fuel' t)
+      | 10 :: s :: t => option_map (cons (CbSB s)) (get_word fuel' t)
+      | 11 :: s :: t => option_map (cons (CbSE s)) (get_word fuel' t)
       | _ => None
       end
   end.
@@ -390,6 +467,10 @@ Fixpoint get_steps (fuel : list N) (l : list N) : option (list stepT) :=
       | 17 :: t => option_map (cons ServerClose) (get_steps fuel' t)
       | 18 :: t => option_map (cons ListenerExit) (get_steps fuel' t)
       | 19 :: t => option_map (cons ServerFinish) (get_steps fuel' t)
+      | 20 :: c :: t => option_map (cons (PacketBegin c)) (get_steps fuel' t)
+      | 21 :: c :: t => option_map (cons (PacketEnd c)) (get_steps fuel' t)
+      | 22 :: s :: t => option_map (cons (SBegin s)) (get_steps fuel' t)
+      | 23 :: s :: t => option_map (cons (SEnd s)) (get_steps fuel' t)
       | _ => None
       end
   end.
@@ -409,11 +490,11 @@ Definition run (cs : list N) : list N :=
   | 1 :: final :: t =>
       match get_word t t with
       | Some w =>
-          match afirst_bad (mkA [] []) w 0 with
+          match afirst_bad a0 w 0 with
           | Some i => [0; i]
           | None =>
               if final =? 0 then [1] else
-              match arun (mkA [] []) w with
+              match arun a0 w with
               | Some a =>
                   match find_open (a_conns a) 0, find_open (a_sesss a) 0 with
                   | Some c, _ => [3; 0; c]
